@@ -5,7 +5,10 @@ import (
 	"fmt"
 	"math/rand"
 	"net"
+	"os"
 	"path/filepath"
+	"sync"
+	"time"
 
 	"github.com/netflix/rend/common"
 	"github.com/netflix/rend/handlers"
@@ -88,6 +91,30 @@ func HandlerSeq(a Args) {
 	}
 	keylens := []int{1, 2, 3, 5, 8, 16, 32, 64, 100, 128, 200, 249, 250}
 	damaged := 0
+	// a handler call that does not come back is an outcome, not trouble of the driver: after 60 s
+	// the call in progress is recorded as a hang and the process ends with status 7
+	var wmu sync.Mutex
+	var cur map[string]interface{}
+	var since time.Time
+	begin := func(c map[string]interface{}) {
+		wmu.Lock()
+		cur, since = c, time.Now()
+		wmu.Unlock()
+	}
+	go func() {
+		for {
+			time.Sleep(time.Second)
+			wmu.Lock()
+			c, t := cur, since
+			wmu.Unlock()
+			if c != nil && time.Since(t) > 60*time.Second {
+				rec.Emit(map[string]interface{}{"ev": "hang", "x": c, "secs": time.Since(t).Seconds(), "kind": kind})
+				rec.Close()
+				fmt.Printf("{\"hang\": true}\n")
+				os.Exit(7)
+			}
+		}
+	}()
 	for tr := 0; tr < a.N; tr++ {
 		w := absx.NewWorld(a.Seed*100000+int64(tr), nil, false)
 		w.KeyLen = keylens[tr%len(keylens)]
@@ -121,8 +148,15 @@ func HandlerSeq(a Args) {
 		if tr%5 == 0 {
 			sizes = append(sizes, 10*p, 10*p+1)
 		}
+		if tr%5 == 2 {
+			sizes = []int{65*p + 1, 1, p, 130 * p, 64 * p}
+		}
 		if a.Sizes == "huge" && tr%3 == 0 {
 			sizes = []int{999 * p, 999*p - 1, 998*p + 1, p}
+		}
+		if a.Sizes == "big" && tr%4 == 1 {
+			// beyond one read of a 64 KiB reader, and straddling it
+			sizes = []int{70000, 12345, 4096, 300, 1}
 		}
 		w = reworld(w, sizes)
 		st.Clear()
@@ -215,7 +249,9 @@ func HandlerSeq(a Args) {
 			if kind != "chunked" {
 				nops = 16 // the chunked handler does not implement gete
 			}
-			switch op := rng.Intn(nops); op {
+			op := rng.Intn(nops)
+			begin(map[string]interface{}{"trace": tr, "call": i, "opcode": op, "k": k, "next_block": nextBlock})
+			switch op {
 			case 14, 15:
 				c = MCmd{Op: "gete", K: k}
 				rc, ec := h.GetE(common.GetRequest{Keys: [][]byte{key}, Opaques: []uint32{7}, Quiet: []bool{false}})
@@ -297,6 +333,7 @@ func HandlerSeq(a Args) {
 					}
 				}
 			}
+			begin(nil)
 			ev := map[string]interface{}{"ev": "op", "port": "handler", "x": xJSON(c), "res": res, "l1": project(), "l2": []interface{}{}}
 			if spare && (!canaryIntact(whole, len(w.Key(k))) || !bytes.Equal(key, w.Key(k))) {
 				ev["keybuf_damaged"] = true
